@@ -291,45 +291,176 @@ def write_ncr(rep, f, c):
         else:
             ok &= got == exp
     rep.ob('C09-D2.length', fn, ok and bool(table), 'NCR length table is not digits+3: %r' % detail, site, {'table': detail}, c)
-    # frame: dst[len-1] = ';', dst[1] = '#', dst[0] = '&', return len
-    r = Resolver(b)
-    stores = []
-    for bi, blk in enumerate(b.blocks):
-        for st in blk['s']:
-            if 'assign' in st and st['assign']['p'] and st['assign']['p'][0] == 'deref' and st['assign']['l'] == 2:
-                pe = st['assign']['p'][1] if len(st['assign']['p']) > 1 else None
-                if isinstance(pe, dict) and 'index' in pe:
-                    stores.append((bi, r.local(pe['index']), r.rvalue(st['rv']), st))
-    amp = [s for s in stores if s[1] == C(0) and is_c(s[2], 0x26)]
-    hsh = [s for s in stores if s[1] == C(1) and is_c(s[2], 0x23)]
-    semi = [s for s in stores if is_c(s[2], 0x3B)]
-    rep.ob('C09-D2.frame', fn, len(amp) == 1 and len(hsh) == 1 and len(semi) == 1 and len(stores) == 4,
-           'frame is not dst[0]=&, dst[1]=#, dst[len-1]=; plus one digit store', site,
-           {'stores': [(expr_str(s[1], b), expr_str(s[2], b)[:60]) for s in stores]}, c)
-    if semi:
-        # index of ';' is len - 1 at that point: the reaching value of pos is Sub(len, 1)
-        posl = semi[0][1][1] if semi[0][1][0] == 'loc' else None
-        pd = [r.rvalue(n['rv']) for bi, si, k, n in b.defs.get(posl, []) if k == 'assign']
-        rep.ob('C09-D2.semicolon', fn, ('bin', 'Sub', ('loc', lenl), C(1)) in pd and semi[0][1] == ('loc', posl) and
-               reaching_defs(b, posl)[semi[0][0]] and all(r.rvalue(b.blocks[d[0]]['s'][d[1]]['rv']) == ('bin', 'Sub', ('loc', lenl), C(1))
-                                                          for d in reaching_defs(b, posl)[semi[0][0]] if d[0] != 'arg'),
-               '; is not stored at dst[len - 1]', sp_str(semi[0][3]['sp']), None, c)
-    # digit store: (number % 10) as u8 + b'0', number /= 10
-    dig = [s for s in stores if s not in amp + hsh + semi]
-    okd = False
-    if len(dig) == 1:
-        v = dig[0][2]
-        if v[0] == 'bin' and v[1] == 'Add' and is_c(v[3], 0x30):
-            inner = cast_inner(v[2])
-            okd = inner[0] == 'bin' and inner[1] == 'Rem' and is_c(inner[3], 10)
-    nd = [r.rvalue(n['rv']) for bi, si, k, n in b.defs.get(numl, []) if k == 'assign']
-    okdiv = any(e[0] == 'bin' and e[1] == 'Div' and e[2] == ('loc', numl) and is_c(e[3], 10) for e in nd)
-    rep.ob('C09-D2.digits', fn, okd and okdiv, 'digit loop is not (number % 10) + b\'0\' with number /= 10', site, None, c)
-    rv = r.local(0)
+    # ---- frame and digits: verification conditions over the acyclic paths, whatever the loop is written as.
+    # With n, p the values of `number` and `pos` at the loop head, the invariant  n = N div 10^k, p = len - 2 - k  (k digits stored)
+    # is established by the prologue (n = N, p = len - 2, ';' stored at len - 1), kept by every iteration (one store of the digit of
+    # n at p, then n / 10 and p - 1) and, on leaving with n < 10, one more store of the digit of n at p completes digits(N) digits
+    # ending at len - 2; len = digits(N) + 3 (C09-D2.length) puts the first digit at index 2, next to dst[0] = '&' and dst[1] = '#'.
+    if len(heads) != 1:
+        rep.undecidable('C09-D2', fn, 'expected exactly one digit loop, found %d' % len(heads), site, c)
+        return
+    H = heads[0]
+    posl = [i for i, l in enumerate(b.locals) if l['ty'] == 'usize' and i > b.arg_count and len(b.defs.get(i, [])) >= 2 and i != lenl
+            and any(bi in natural_loop_blocks(b, H) for bi, _, _, _ in b.defs[i])]
+    if len(posl) != 1:
+        rep.undecidable('C09-D2', fn, 'write position local not found (%d candidates)' % len(posl), site, c)
+        return
+    posl = posl[0]
+    n0, p0 = ('init', numl), ('init', posl)
+    DST = ('deref', ('loc', 2))
+
+    def dst_stores(p):
+        return [(e[1][2], e[2], e[3]) for e in p.events if e[0] == 'store' and e[1][0] == 'idx' and e[1][1] == DST]
+
+    def lin_of(e):
+        try:
+            t, k = add_terms(e)
+        except Exception:
+            return None
+        return tuple(sorted(t, key=repr)), k
+
+    def sub_terms(e):
+        """linear form with Sub: ({term: coeff}, const)"""
+        if e[0] == 'c' and isinstance(e[1], int):
+            return {}, e[1]
+        if e[0] == 'bin' and e[1] in ('Add', 'Sub'):
+            a, ka = sub_terms(e[2])
+            c_, kc = sub_terms(e[3])
+            sg = 1 if e[1] == 'Add' else -1
+            out = dict(a)
+            for t_, v_ in c_.items():
+                out[t_] = out.get(t_, 0) + sg * v_
+                if out[t_] == 0:
+                    del out[t_]
+            return out, ka + sg * kc
+        return {e: 1}, 0
+
+    def is_digit(v, n, small):
+        """v == (n % 10) as u8 + b'0'   (or n as u8 + b'0' where n < 10 is known)"""
+        if v[0] == 'cast':
+            v = ('bin', 'Add', cast_inner(v)[2], cast_inner(v)[3]) if cast_inner(v)[0] == 'bin' and cast_inner(v)[1] == 'Add' else v
+        if not (v[0] == 'bin' and v[1] == 'Add'):
+            return False
+        a, c_ = (v[2], v[3]) if is_c(v[3], 0x30) else (v[3], v[2]) if is_c(v[2], 0x30) else (None, None)
+        if a is None:
+            return False
+        a = cast_inner(a)
+        if a[0] == 'bin' and a[1] == 'Rem' and cast_inner(a[2]) == n and is_c(a[3], 10):
+            return True
+        return small and a == n
+
+    def known_small(p):
+        for e in p.events:
+            if e[0] != 'cond' or not isinstance(e[1], tuple) or e[1][0] != 'bin' or not isinstance(e[2], bool):
+                continue
+            op, x, y = e[1][1], cast_inner(e[1][2]), cast_inner(e[1][3])
+            t_ = e[2]
+            if x == n0 and y[0] == 'c':
+                if (op, y[1], t_) in (('Lt', 10, True), ('Ge', 10, False), ('Le', 9, True), ('Gt', 9, False)):
+                    return True
+            if y == n0 and x[0] == 'c':
+                if (op, x[1], t_) in (('Gt', 10, True), ('Le', 10, False), ('Ge', 9, True), ('Lt', 9, False)):
+                    return True
+        return False
+
+    def shifted(e, k):
+        t_, k0 = sub_terms(e)
+        return t_, k0 + k
+
+    def frame_kind(idx, val, lenp=('init', lenl)):
+        il = sub_terms(idx)
+        if is_c(val, 0x26) and il == ({}, 0):
+            return '&'
+        if is_c(val, 0x23) and il == ({}, 1):
+            return '#'
+        if is_c(val, 0x3B) and il in (shifted(lenp, -1), shifted(('init', lenl), -1), shifted(('loc', lenl), -1)):
+            return ';'
+        return None
+
+    try:
+        pro = [p for p in region_paths(b, 0, stop=[H]) if p.end[0] != 'diverge']
+        inl = [p for p in region_paths(b, H, stop=[H]) if p.end[0] != 'diverge']
+    except OverflowError:
+        rep.undecidable('C09-D2', fn, 'path bound exceeded', site, c)
+        return
+    infeasible = lambda p: any(e[0] == 'cond' and isinstance(e[1], tuple) and e[1][0] == 'c' and isinstance(e[2], bool) and bool(e[1][1]) != e[2] for e in p.events)
+    pro = [p for p in pro if not infeasible(p)]
+    inl = [p for p in inl if not infeasible(p)]
+    frames = {'pro': [], 'exit': []}
+    ok_pro = bool(pro)
+    why_pro = ''
+    lenv = lambda e: e if e != ('init', lenl) else ('loc', lenl)
+    for p in pro:
+        if p.end[0] != 'stop':
+            ok_pro, why_pro = False, 'a path returns before the digit loop'
+            continue
+        fr = []
+        lenp = p.env.get(lenl, ('init', lenl))         # the length as it is on this path (a constant per arm of the selection)
+        for idx, val, bb in dst_stores(p):
+            k_ = frame_kind(idx, val, lenp)
+            if k_ is None:
+                ok_pro, why_pro = False, 'store %s = %s before the digits' % (expr_str(idx, b)[:40], expr_str(val, b)[:40])
+            fr.append(k_)
+        frames['pro'].append(tuple(sorted(x for x in fr if x)))
+        pv, nv = p.env.get(posl), p.env.get(numl)
+        if pv is None or sub_terms(pv) != shifted(lenp, -2):
+            ok_pro, why_pro = False, 'the first digit position is %s, not len - 2' % (expr_str(pv, b)[:60] if pv else None)
+        if nv is None or cast_inner(nv) != ('loc', 1):
+            ok_pro, why_pro = False, 'the number is not the scalar value of the character when the digits start'
+    ok_loop, why_loop = True, ''
+    ok_exit, why_exit = True, ''
+    nloop = nexit = 0
+    for p in inl:
+        st = dst_stores(p)
+        digs = [(i_, v_) for i_, v_, _ in st if frame_kind(i_, v_) is None]
+        fr = tuple(sorted(frame_kind(i_, v_) for i_, v_, _ in st if frame_kind(i_, v_)))
+        small = known_small(p)
+        if p.end[0] in ('back', 'stop'):
+            nloop += 1
+            pv, nv = p.env.get(posl, p0), p.env.get(numl, n0)
+            if fr:
+                ok_loop, why_loop = False, 'a frame byte is stored inside the digit loop'
+            if len(digs) != 1 or digs[0][0] != p0 or not is_digit(digs[0][1], n0, small):
+                ok_loop, why_loop = False, 'an iteration does not store exactly the digit (number %% 10) + b\'0\' at pos: %s' % [(expr_str(i_, b)[:30], expr_str(v_, b)[:60]) for i_, v_ in digs]
+            if sub_terms(pv) != ({p0: 1}, -1):
+                ok_loop, why_loop = False, 'an iteration moves pos by %s instead of - 1' % expr_str(pv, b)[:60]
+            if not (nv[0] == 'bin' and nv[1] == 'Div' and nv[2] == n0 and is_c(nv[3], 10)):
+                ok_loop, why_loop = False, 'an iteration continues with number = %s instead of number / 10' % expr_str(nv, b)[:60]
+        elif p.end[0] == 'return':
+            nexit += 1
+            frames['exit'].append(fr)
+            if len(digs) != 1 or digs[0][0] != p0 or not is_digit(digs[0][1], n0, small):
+                ok_exit, why_exit = False, 'the most significant digit is not stored at pos as number + b\'0\' (number < 10): %s' % [(expr_str(i_, b)[:30], expr_str(v_, b)[:60]) for i_, v_ in digs]
+            if not small:
+                ok_exit, why_exit = False, 'the digit loop is left without number < 10 being established'
+            rvp = p.env.get(0)
+            if rvp is None or rvp not in (('loc', lenl), ('init', lenl)):
+                ok_exit, why_exit = False, 'the value returned is not the NCR length'
+    fp, fx = set(frames['pro']), set(frames['exit'])
+    ok_frame = len(fp) == 1 and len(fx) == 1 and sorted(list(fp)[0] + list(fx)[0]) == sorted(['&', '#', ';'])
+    rep.ob('C09-D2.frame', fn, ok_pro and ok_frame and nexit >= 1,
+           why_pro or 'every call must store exactly dst[0]=&, dst[1]=#, dst[len-1]=; around the digits; found %s before and %s after the digit loop' % (sorted(fp), sorted(fx)),
+           site, {'before_loop': [list(x) for x in fp], 'after_loop': [list(x) for x in fx], 'prologue_paths': len(pro)}, c)
+    rep.ob('C09-D2.semicolon', fn, ok_pro, why_pro or '', site, None, c)
+    rep.ob('C09-D2.digits', fn, ok_loop and ok_exit and nloop >= 1 and nexit >= 1, why_loop or why_exit or 'no digit loop paths', site,
+           {'loop_paths': nloop, 'exit_paths': nexit}, c)
+    rv = r00.local(0)
     if rv == ('loc', 0):
         ds = b.defs.get(0, [])
-        rv = r.rvalue(ds[0][3]['rv']) if len(ds) == 1 and ds[0][2] == 'assign' else rv
+        rv = r00.rvalue(ds[0][3]['rv']) if len(ds) == 1 and ds[0][2] == 'assign' else rv
     rep.ob('C09-D2.return', fn, rv == ('loc', lenl), 'write_ncr does not return the NCR length', site, None, c)
+
+
+def natural_loop_blocks(body, h):
+    loop = {h}
+    stack = [x for (x, hh) in body.back_edges() if hh == h]
+    while stack:
+        x = stack.pop()
+        if x in loop:
+            continue
+        loop.add(x)
+        stack.extend(body.pred[x])
+    return loop
 
 
 def run(rep, facts, tier):
